@@ -10,7 +10,7 @@ use crate::sx::walk;
 pub const RULE: &str = "cases are operation histories (decoded from a choice sequence; the whole sequence shrinks) over a heap of 4 DOM slots. Slots start as parsed documents, clones or takes of subtrees (sharing the parsed arena), json!/From-built values or empty containers. Operations: Value::{take, clone, get, get_mut, pointer, pointer_mut (incl. the empty path), as_array_mut, as_object_mut, Index, IndexMut(str|usize), assignment}, Array::{push, pop, insert, remove, swap_remove, truncate, clear, resize, resize_with, retain, retain_mut, split_off, append, drain, extend, extend_from_within, iter_mut, slice indexing, into_iter next/next_back}, Object::{insert, remove, remove_entry, get, get_mut, get_key_value, contains_key, len, is_empty, clear, retain, append, extend, iter, iter_mut, IndexMut, entry -> key / or_insert / or_insert_with / or_insert_with_key / or_default / and_modify / Occupied get, get_mut, insert, remove, into_mut / Vacant key, insert}, moving or cloning a value from one slot into a container of another. Every operation is applied to the DOM and to a reference model (Vec / unique-key map) in lock-step; its result (returned value, Option-ness, lengths, booleans, keys, or the documented panic) must agree, and after every step a canonical dump of ALL slots must equal the model — so a mutation of one value that changes another (the document it was cloned or extracted from, earlier clones) is detected. Exhaustive: every sequence of <= 3 operations over a reduced operation/argument universe. Non-trivial = a mutation after a clone/take/extract of the same arena or of a child of a parsed container; distinct by history bytes.";
 pub const ASSUMPTIONS: &[&str] = &["starting documents are duplicate-free (a string-keyed map cannot express duplicates)", "documented panics (IndexMut on a wrong kind, Vec-style out-of-range) are expected outcomes and must leave all slots unchanged", "array::IntoIter::as_slice/as_mut_slice are undocumented and not modelled"];
 
-const DOCS: &[&str] = &[
+pub const DOCS: &[&str] = &[
     "{\"a\":[1,2,{\"b\":null}],\"c\":\"s\",\"d\":{\"e\":[true,false],\"f\":{}}}",
     "[1,\"two\",[3,[4,5]],{\"k\":\"v\",\"n\":[]},null,-6.5]",
     "{\"x\":{\"y\":{\"z\":[{\"w\":1}]}},\"arr\":[[],[[]],{}]}",
@@ -22,7 +22,7 @@ const DOCS: &[&str] = &[
     "12345678901234567890",
 ];
 
-fn universe(i: usize) -> (Value, M) {
+pub fn universe(i: usize) -> (Value, M) {
     let texts = ["null", "true", "7", "-3", "1.5", "\"s\"", "\"é\\\"x\"", "[1,\"a\"]", "{\"k\":1}", "{\"k\":{\"n\":[]}}", "[]", "{}", "[[2],{\"z\":null}]"];
     let t = texts[i % texts.len()];
     let m = refjson::parse(t.as_bytes()).unwrap().0.model(t.as_bytes(), false);
@@ -45,15 +45,15 @@ fn universe(i: usize) -> (Value, M) {
     (v, m)
 }
 
-fn dump(v: &Value) -> String {
+pub fn dump(v: &Value) -> String {
     walk(v, false).sorted().dump()
 }
-fn mdump(m: &M) -> String {
+pub fn mdump(m: &M) -> String {
     m.sorted().dump()
 }
 
 /// choose a path that resolves in the model; returns (pointer, steps)
-fn choose_path(m: &M, src: &mut Src) -> Vec<PointerNode> {
+pub fn choose_path(m: &M, src: &mut Src) -> Vec<PointerNode> {
     let mut out = Vec::new();
     let mut cur = m;
     let depth = src.below(4);
@@ -77,7 +77,7 @@ fn choose_path(m: &M, src: &mut Src) -> Vec<PointerNode> {
     out
 }
 
-fn m_at<'a>(m: &'a M, p: &[PointerNode]) -> Option<&'a M> {
+pub fn m_at<'a>(m: &'a M, p: &[PointerNode]) -> Option<&'a M> {
     let mut cur = m;
     for e in p {
         cur = match (e, cur) {
@@ -88,7 +88,7 @@ fn m_at<'a>(m: &'a M, p: &[PointerNode]) -> Option<&'a M> {
     }
     Some(cur)
 }
-fn m_at_mut<'a>(m: &'a mut M, p: &[PointerNode]) -> Option<&'a mut M> {
+pub fn m_at_mut<'a>(m: &'a mut M, p: &[PointerNode]) -> Option<&'a mut M> {
     let mut cur = m;
     for e in p {
         cur = match (e, cur) {
@@ -128,9 +128,10 @@ struct State {
 impl State {
     fn check_all(&self, step: &str) -> Result<(), Fail> {
         for (i, (v, m)) in self.slots.iter().zip(self.models.iter()).enumerate() {
-            let got = catch(|| dump(v)).map_err(|p| Fail::new("C15/dump-panics", format!("dumping slot {i} panicked after [{}]: {p}", self.log.join("; "))))?;
-            let want = mdump(m);
-            if got != want {
+            let same = catch(|| crate::sx::eq_vm(v, m)).map_err(|p| Fail::new("C15/dump-panics", format!("reading slot {i} panicked after [{}]: {p}", self.log.join("; "))))?;
+            if !same {
+                let got = dump(v);
+                let want = mdump(m);
                 fail!(format!("C15/state-mismatch/{}", step.split('(').next().unwrap_or(step).split(' ').next().unwrap_or(step)), "after [{}] slot {i} is {} but the model says {}", self.log.join("; "), trunc(&got, 300), trunc(&want, 300));
             }
         }
